@@ -86,7 +86,10 @@ type node struct {
 	// midFlush is called from the family's first ack callback: after the data commit (table +
 	// sequences in the manifest), before the replicator's callback acknowledges the WAL.
 	midFlush func()
-	closed   bool
+	// postAck is called from a callback registered AFTER the replicator's: right after the WAL
+	// acknowledgement of a flush.
+	postAck func()
+	closed  bool
 
 	// consumer group positions as found in the directory (before NewLocalReplicator acknowledges
 	// the persisted sequence and rewinds)
@@ -177,6 +180,11 @@ func openNode(root string, famTime int64) (n *node, err error) {
 	if n.cg, err = n.fq.GetOrCreateConsumerGroup(strconv.Itoa(int(leader))); err != nil {
 		return nil, err
 	}
+	n.fam.AckSequence(leader32, func(int64) {
+		if n.postAck != nil {
+			n.postAck()
+		}
+	})
 	return n, nil
 }
 
@@ -187,7 +195,7 @@ func (n *node) close() {
 		return
 	}
 	n.closed = true
-	n.midFlush = nil
+	n.midFlush, n.postAck = nil, nil
 	done := make(chan struct{})
 	go func() {
 		defer close(done)
@@ -380,6 +388,12 @@ func (n *node) flushIndex() error {
 }
 
 func (n *node) flushFamily() error { return n.fam.Flush() }
+
+// doFlush runs the flush checker's own doFlush for the family (the real order of the round).
+func (n *node) doFlush() error {
+	tsdb.VerifDoFlush(n.db, n.shard, []tsdb.DataFamily{n.fam})
+	return nil
+}
 
 // ---------------------------------------------------------------- lookups
 
